@@ -30,6 +30,9 @@ func init() {
 		"C09": "a record's key is a copy, not a slice of the payload buffer",
 		"C11": "noreply is recognised only behind the mandatory fields (constant bound)",
 		"C14": "hint file readers hand out fresh items",
+		"C02": "the start-up scan loops return reader errors, stop at the end of input and prepare / position each entry before applying it; close forces its flushes",
+		"C06": "the start-up scan loops return reader errors and stop at the end of input",
+		"C10": "the compressor is never reached with an empty body",
 	}
 	for p, t := range clause {
 		if pr := Registry[p]; pr != nil && !strings.Contains(pr.Clause, t) {
@@ -458,4 +461,452 @@ func c10r12(c *Ctx) {
 	if n == 0 {
 		c.undec(R, "quicklz.CCompress", "no call site found")
 	}
+}
+
+// ---------------------------------------------------------------- start-up scan loops (from the mutation sweep)
+
+func init() {
+	for _, p := range []string{"C02", "C06", "C07"} {
+		d := "start-up scan loops: errors are returned, end of input ends the loop, each entry is prepared and positioned before it is applied"
+		if p != "C02" {
+			d = "shared: " + d
+		}
+		addRule(p, Rule{"C02.R12", "q", d, c02r12})
+	}
+}
+
+// c02r12: the two loops that rebuild the indexes at start-up —
+// Bucket.updateHtreeFromHint (replay of a hint file into the tree) and
+// Bucket.buildHintFromData (scan of a data file into hints) — must
+//   (a) return the reader's error (the caller fail-stops on it),
+//   (b) leave the loop when the reader reports the end (nil item / record),
+//   (c) replay: prepare the key path before touching the tree, give the entry the
+//       chunk being replayed before tree.set and the "remove whatever is there"
+//       position (-1) before tree.remove, in the same iteration,
+//   (d) replay: report the data coverage recorded in the hint file.
+// These were found as surviving mutants of a syntactic mutation sweep (gbmut).
+func c02r12(c *Ctx) {
+	const R = "C02.R12"
+	type loopSpec struct {
+		fn, next string
+		errIdx   int
+	}
+	for _, sp := range []loopSpec{{"store.Bucket.updateHtreeFromHint", "store.hintFileReader.next", 1}, {"store.Bucket.buildHintFromData", "store.DataStreamReader.Next", 3}} {
+		f := c.fn(R, sp.fn)
+		if f == nil {
+			continue
+		}
+		info := f.Info()
+		nx := f.CallsTo(sp.next)
+		if len(nx) != 1 {
+			c.undec(R, f.Key, "reader call not found exactly once")
+			continue
+		}
+		errRes := f.Result(len(resultsOf(f)) - 1)
+		eObj := f.ResultObj(nx[0].Expr, sp.errIdx)
+		itObj := f.ResultObj(nx[0].Expr, 0)
+		// (a) error branch: assigns the named error result (or returns it explicitly) and returns
+		okErr := false
+		ast.Inspect(f.Decl.Body, func(x ast.Node) bool {
+			is, ok := x.(*ast.IfStmt)
+			if !ok || eObj == nil {
+				return true
+			}
+			as := prog.Decompose(is.Cond, true, is)
+			if len(as) != 1 || !(as[0].Op == token.NEQ && prog.ObjOf(info, as[0].X) == eObj && prog.IsNil(info, as[0].Y)) {
+				return true
+			}
+			assigned, returned := false, false
+			ast.Inspect(is.Body, func(y ast.Node) bool {
+				switch s := y.(type) {
+				case *ast.AssignStmt:
+					for i, l := range s.Lhs {
+						if errRes != nil && prog.ObjOf(info, l) == errRes && i < len(s.Rhs) && prog.ObjOf(info, s.Rhs[i]) == eObj {
+							assigned = true
+						}
+					}
+				case *ast.ReturnStmt:
+					returned = true
+					for _, r := range s.Results {
+						if prog.ObjOf(info, r) == eObj {
+							assigned = true
+						}
+					}
+				}
+				return true
+			})
+			if assigned && returned && f.Terminates(is.Body) {
+				okErr = true
+			}
+			return true
+		})
+		c.check(okErr, R, f.Key+": a reader error is returned", nx[0].Pos(), "if e != nil { err = e; return }",
+			"an error of the reader does not end the function with that error: the caller (Bucket.open) fail-stops only on a returned error, so a damaged hint or data file would be indexed up to the damage and served")
+		// (b) nil item ends the loop
+		okEnd := false
+		ast.Inspect(f.Decl.Body, func(x ast.Node) bool {
+			is, ok := x.(*ast.IfStmt)
+			if !ok || itObj == nil {
+				return true
+			}
+			as := prog.Decompose(is.Cond, true, is)
+			if len(as) == 1 && as[0].Op == token.EQL && prog.ObjOf(info, as[0].X) == itObj && prog.IsNil(info, as[0].Y) && len(is.Body.List) > 0 {
+				switch s := is.Body.List[len(is.Body.List)-1].(type) {
+				case *ast.ReturnStmt:
+					okEnd = true
+				case *ast.BranchStmt:
+					okEnd = s.Tok == token.BREAK
+				}
+			}
+			return true
+		})
+		c.check(okEnd, R, f.Key+": end of input leaves the loop", nx[0].Pos(), "if item == nil { return / break }",
+			"a nil item from the reader (end of input) does not leave the loop: the loop spins, or dereferences nil")
+		if sp.fn != "store.Bucket.updateHtreeFromHint" {
+			continue
+		}
+		// (c) replay ordering inside one iteration
+		cfg := f.CFG()
+		prep := f.CallsTo("store.KeyInfo.Prepare")
+		sets := f.CallsTo(kHTreeSet)
+		rems := f.CallsTo("store.HTree.remove")
+		for _, t := range append(append([]prog.Call{}, sets...), rems...) {
+			okP := false
+			for _, p := range prep {
+				c.Paths++
+				if cfg.Dominates(p.Expr, t.Expr) && p.Expr.Pos() > nx[0].Expr.Pos() {
+					okP = true
+				}
+			}
+			c.check(okP, R, f.Key+": key path prepared before "+short(t.Key), t.Pos(), "ki.Prepare() ≺ tree op",
+				"the replayed key's path is not prepared (KeyInfo.Prepare) before the tree is touched: the entry lands in, or is removed from, the wrong leaf")
+		}
+		chunkParam := f.Param(0)
+		posChunk := func(want func(ast.Expr) bool, t prog.Call, what, bad string) {
+			if len(t.Expr.Args) < 2 {
+				return
+			}
+			posArg := t.Expr.Args[len(t.Expr.Args)-1]
+			root := prog.RootObj(info, posArg)
+			ok := false
+			ast.Inspect(f.Decl.Body, func(x ast.Node) bool {
+				as, isA := x.(*ast.AssignStmt)
+				if !isA || len(as.Lhs) != 1 || len(as.Rhs) != 1 {
+					return true
+				}
+				if k, _ := prog.FieldOf(info, as.Lhs[0]); k == "store.Position.ChunkID" && prog.RootObj(info, as.Lhs[0]) == root && want(as.Rhs[0]) {
+					c.Paths++
+					if cfg.Dominates(as, t.Expr) && as.Pos() > nx[0].Expr.Pos() && as.Pos() < t.Expr.Pos() {
+						// same branch: nothing else assigns ChunkID in between
+						ok = true
+					}
+				}
+				return true
+			})
+			c.check(ok, R, f.Key+": "+what, t.Pos(), "assigned in the same iteration, before the call", bad)
+		}
+		for _, s := range sets {
+			posChunk(func(e ast.Expr) bool { return chunkParam != nil && prog.ObjOf(info, prog.Unparen(e)) == chunkParam }, s,
+				"pos.ChunkID = the replayed chunk before tree.set",
+				"the position given to tree.set does not get the chunk being replayed in the same iteration (it keeps what an earlier entry left there, e.g. -1 from a tombstone): the entry points into the wrong data file")
+		}
+		for _, r := range rems {
+			posChunk(func(e ast.Expr) bool { v, isC := prog.ConstInt(info, e); return isC && v == -1 }, r,
+				"pos.ChunkID = -1 before tree.remove",
+				"the tombstone's removal is no longer unconditional (ChunkID -1): with a stale chunk id the entry is removed only if the offsets happen to match, so a deleted key stays in the tree after a rebuild")
+		}
+		// (d) coverage reported
+		okCov := false
+		if mo := f.Result(0); mo != nil {
+			ast.Inspect(f.Decl.Body, func(x ast.Node) bool {
+				if as, isA := x.(*ast.AssignStmt); isA && len(as.Lhs) == 1 && prog.ObjOf(info, as.Lhs[0]) == mo {
+					if k, _ := prog.FieldOf(info, as.Rhs[0]); strings.HasSuffix(k, ".datasize") {
+						okCov = true
+					}
+				}
+				if r, isR := x.(*ast.ReturnStmt); isR && len(r.Results) > 0 {
+					if k, _ := prog.FieldOf(info, r.Results[0]); strings.HasSuffix(k, ".datasize") {
+						okCov = true
+					}
+				}
+				return true
+			})
+		}
+		c.check(okCov, R, f.Key+": returns the data coverage recorded in the hint file", f.Pos(), "maxoffset = reader.datasize",
+			"the replay no longer reports the hint file's data coverage: the caller cannot tell which part of the data file still has to be scanned")
+	}
+}
+
+func resultsOf(f *prog.Func) []*types.Var {
+	sig := f.Obj.Type().(*types.Signature)
+	var out []*types.Var
+	for i := 0; i < sig.Results().Len(); i++ {
+		out = append(out, sig.Results().At(i))
+	}
+	return out
+}
+
+// ---------------------------------------------------------------- write/read path (from the mutation sweep)
+
+func init() {
+	addRule("C01", Rule{"C01.R15", "q", "checkAndSet: old version from the fetched entry; same-value shortcut only under check_vhash; NOT_FOUND for a delete of an absent or deleted key", c01r15})
+	addRule("C04", Rule{"C01.R15", "q", "shared: the version arbitration runs on the fetched entry's version", c01r15})
+	addRule("C02", Rule{"C02.R13", "q", "close forces the flush of every chunk it writes out", c02r13})
+	addRule("C13", Rule{"C13.R20", "q", "read-time registration carries the full position; a table hit supplies position and meta", c13r20})
+}
+
+func c01r15(c *Ctx) {
+	const R = "C01.R15"
+	f := c.fn(R, "store.Bucket.checkAndSet")
+	if f == nil {
+		return
+	}
+	info := f.Info()
+	gets := f.CallsTo("store.Bucket.get")
+	chk := f.CallsTo("store.Bucket.checkAndUpdateVerison")
+	if len(gets) != 1 || len(chk) != 1 {
+		c.undec(R, f.Key, "bkt.get / checkAndUpdateVerison not found exactly once")
+		return
+	}
+	payload := f.ResultObj(gets[0].Expr, 0)
+	// (1) the old version handed to the arbitration is payload.Ver (when a payload was found), else 0
+	oldArg := chk[0].Expr.Args[0]
+	fromPayload, other := false, ""
+	for _, s := range f.SourcesAt(oldArg, chk[0].Expr) {
+		switch {
+		case s.Kind == "const" || s.Kind == "zero":
+			if s.Expr != nil {
+				if v, isC := prog.ConstInt(info, prog.StripConv(info, s.Expr)); isC && v != 0 {
+					other = types.ExprString(s.Expr)
+				}
+			}
+		case s.Kind == "call" && s.Key == "store.Bucket.get" && strings.HasSuffix(s.Field, "Ver"):
+			fromPayload = true
+		case s.Expr != nil && payload != nil && prog.RootObj(info, s.Expr) == payload:
+			if k, _ := prog.FieldOf(info, s.Expr); k == "store.Meta.Ver" {
+				fromPayload = true
+			} else {
+				other = types.ExprString(s.Expr)
+			}
+		default:
+			if s.Expr != nil {
+				if v, isC := prog.ConstInt(info, prog.StripConv(info, s.Expr)); isC && v == 0 {
+					continue
+				}
+				other = types.ExprString(s.Expr)
+			} else {
+				other = s.Kind
+			}
+		}
+	}
+	c.check(fromPayload && other == "", R, f.Key+": old version = version of the fetched entry (0 when absent)", chk[0].Pos(), "oldv = payload.Ver",
+		"the version arbitration does not run on the version of the entry fetched under the write lock (other source: "+other+", payload.Ver reaches it: "+boolStr(fromPayload)+"): versions restart or explicit revisions are compared with the wrong value")
+	// (2) the same-value shortcut (return without writing) only with Conf.CheckVHash
+	for _, r := range f.CFG().Returns() {
+		if r.Pos() > chk[0].Expr.Pos() || r.Pos() < gets[0].Expr.End() || len(r.Results) != 1 || !prog.IsNil(info, r.Results[0]) {
+			continue
+		}
+		okG := false
+		for _, a := range f.GuardsAt(r) {
+			if a.Op == token.ILLEGAL && !a.Neg {
+				if k, _ := prog.FieldOf(info, prog.Unparen(a.X)); strings.HasSuffix(k, ".CheckVHash") {
+					okG = true
+				}
+			}
+		}
+		c.check(okG, R, f.Key+": a set is dropped as `same value` only under Conf.CheckVHash", c.pos(r), "guarded by the option",
+			"checkAndSet returns success without writing although check_vhash is not the (positively tested) reason: with the default configuration a set of an equal-hash value is acknowledged but neither stored nor given a new version")
+	}
+	// (3) NOT_FOUND: delete of an absent or already deleted key
+	okNF := false
+	ast.Inspect(f.Decl.Body, func(x ast.Node) bool {
+		is, ok := x.(*ast.IfStmt)
+		if !ok || len(is.Body.List) != 1 {
+			return true
+		}
+		rs, ok := is.Body.List[0].(*ast.ReturnStmt)
+		if !ok || len(rs.Results) != 1 {
+			return true
+		}
+		isNF := false
+		ast.Inspect(rs.Results[0], func(y ast.Node) bool {
+			if bl, ok := y.(*ast.BasicLit); ok && strings.Contains(bl.Value, "NOT_FOUND") {
+				isNF = true
+			}
+			return true
+		})
+		if !isNF {
+			return true
+		}
+		be, ok := prog.Unparen(is.Cond).(*ast.BinaryExpr)
+		if !ok || be.Op != token.LAND {
+			return true
+		}
+		isVerNeg := func(e ast.Expr) bool {
+			b, ok := prog.Unparen(e).(*ast.BinaryExpr)
+			if !ok || b.Op != token.LSS {
+				return false
+			}
+			k, _ := prog.FieldOf(info, b.X)
+			v, isC := prog.ConstInt(info, b.Y)
+			return k == "store.Meta.Ver" && isC && v == 0 && prog.RootObj(info, b.X) == f.Param(1)
+		}
+		isAbsent := func(e ast.Expr) bool {
+			b, ok := prog.Unparen(e).(*ast.BinaryExpr)
+			if !ok || b.Op != token.LOR {
+				return false
+			}
+			nilT, negT := false, false
+			for _, s := range []ast.Expr{b.X, b.Y} {
+				sb, ok := prog.Unparen(s).(*ast.BinaryExpr)
+				if !ok {
+					continue
+				}
+				if sb.Op == token.EQL && payload != nil && prog.ObjOf(info, sb.X) == payload && prog.IsNil(info, sb.Y) {
+					nilT = true
+				}
+				if sb.Op == token.LSS {
+					if v, isC := prog.ConstInt(info, sb.Y); isC && v == 0 {
+						for _, src := range f.SourcesAt(sb.X, is) {
+							if src.Expr != nil && payload != nil && prog.RootObj(info, src.Expr) == payload {
+								negT = true
+							}
+							if src.Kind == "call" && src.Key == "store.Bucket.get" {
+								negT = true
+							}
+						}
+					}
+				}
+			}
+			return nilT && negT
+		}
+		if (isVerNeg(be.X) && isAbsent(be.Y)) || (isVerNeg(be.Y) && isAbsent(be.X)) {
+			c.Paths++
+			if f.CFG().Dominates(chk[0].Expr, is) {
+				okNF = true
+			}
+		}
+		return true
+	})
+	c.check(okNF, R, f.Key+": delete of an absent or deleted key ⇒ NOT_FOUND, nothing written", f.Pos(), "v.Ver < 0 && (payload == nil || oldv < 0)",
+		"the NOT_FOUND answer for a delete is no longer given exactly when the key is absent or already deleted (after the version arbitration): a tombstone is written for a key that never existed, or a live key's delete is refused")
+}
+
+func c02r13(c *Ctx) {
+	const R = "C02.R13"
+	f := c.fn(R, "store.Bucket.close")
+	if f == nil {
+		return
+	}
+	info := f.Info()
+	fl := f.CallsTo("store.dataStore.flush")
+	if len(fl) == 0 {
+		c.undec(R, f.Key, "no flush in close")
+		return
+	}
+	for _, call := range fl {
+		if len(call.Expr.Args) != 2 {
+			continue
+		}
+		v, isC := prog.ConstBool(info, call.Expr.Args[1])
+		c.check(isC && v, R, f.Key+": flush("+types.ExprString(call.Expr.Args[0])+", force=true)", call.Pos(), "forced",
+			"close asks for a flush that the flush policy may skip (force is not the constant true): with flush_interval > 0 records buffered within the interval are still unwritten when close returns")
+	}
+}
+
+func c13r20(c *Ctx) {
+	const R = "C13.R20"
+	f := c.fn(R, "store.Bucket.get")
+	if f == nil {
+		return
+	}
+	info := f.Info()
+	cfg := f.CFG()
+	gi := f.CallsTo("store.hintMgr.getItem")
+	cas := f.CallsTo("store.CollisionTable.compareAndSet")
+	if len(gi) != 1 || len(cas) < 2 {
+		c.undec(R, f.Key, "getItem / the two compareAndSet calls not found")
+		return
+	}
+	hintit := f.ResultObj(gi[0].Expr, 0)
+	chunk := f.ResultObj(gi[0].Expr, 1)
+	// the registration of the looked-up item: its Pos gets the chunk id of the lookup first
+	for _, call := range cas {
+		if len(call.Expr.Args) < 1 || hintit == nil || prog.ObjOf(info, prog.Unparen(call.Expr.Args[0])) != hintit {
+			continue
+		}
+		ok := false
+		ast.Inspect(f.Decl.Body, func(x ast.Node) bool {
+			as, isA := x.(*ast.AssignStmt)
+			if !isA || len(as.Lhs) != 1 || len(as.Rhs) != 1 {
+				return true
+			}
+			if k, _ := prog.FieldOf(info, as.Lhs[0]); k != "store.HintItemMeta.Pos" || prog.RootObj(info, as.Lhs[0]) != hintit {
+				return true
+			}
+			// the value: Position{chunkID, hintit.Pos.Offset} directly or through a local
+			carries := false
+			exprs := []ast.Expr{as.Rhs[0]}
+			for _, d := range f.DefsOfPath(prog.Unparen(as.Rhs[0])) {
+				if d.Rhs != nil {
+					exprs = append(exprs, d.Rhs)
+				}
+			}
+			for _, e := range exprs {
+				if chunk != nil && prog.Mentions(info, e, chunk) {
+					carries = true
+				}
+			}
+			c.Paths++
+			if carries && cfg.Dominates(as, call.Expr) {
+				ok = true
+			}
+			return true
+		})
+		c.check(ok, R, f.Key+": the looked-up item is registered with the chunk id of the lookup", call.Pos(), "hintit.Pos = Position{chunkID, …} ≺ compareAndSet",
+			"the hint item found for the requested key is put into the collision table without the chunk id the lookup returned (hint items carry chunk 0): every later get of that key reads the wrong data file")
+	}
+	// the table-hit path: position and meta come from the table item
+	tbl := f.CallsTo("store.CollisionTable.get")
+	if len(tbl) == 0 {
+		c.undec(R, f.Key, "collision table lookup not found")
+		return
+	}
+	tit := f.ResultObj(tbl[0].Expr, 0)
+	posRes := f.Result(1)
+	okPos, okMeta := false, false
+	ast.Inspect(f.Decl.Body, func(x ast.Node) bool {
+		as, isA := x.(*ast.AssignStmt)
+		if !isA || len(as.Lhs) != 1 || len(as.Rhs) != 1 || tit == nil {
+			return true
+		}
+		if posRes != nil && prog.ObjOf(info, as.Lhs[0]) == posRes {
+			if k, _ := prog.FieldOf(info, as.Rhs[0]); k == "store.HintItemMeta.Pos" && prog.RootObj(info, as.Rhs[0]) == tit {
+				okPos = true
+			}
+		}
+		if prog.Mentions(info, as.Rhs[0], tit) {
+			ver, vh := false, false
+			ast.Inspect(as.Rhs[0], func(y ast.Node) bool {
+				if kv, isKV := y.(*ast.KeyValueExpr); isKV {
+					if id, isId := kv.Key.(*ast.Ident); isId {
+						k, _ := prog.FieldOf(info, kv.Value)
+						if id.Name == "Ver" && strings.HasSuffix(k, ".Ver") {
+							ver = true
+						}
+						if id.Name == "ValueHash" && strings.HasSuffix(k, ".Vhash") {
+							vh = true
+						}
+					}
+				}
+				return true
+			})
+			if ver && vh {
+				okMeta = true
+			}
+		}
+		return true
+	})
+	c.check(okPos && okMeta, R, f.Key+": a collision-table hit supplies the position and the meta", tbl[0].Pos(), "pos = item.Pos; meta = {Ver, Vhash}",
+		"for a key found in the collision table the position (or version / value hash) is not taken from the table item: the key is read at the zero position or served with another entry's version")
 }
